@@ -27,9 +27,9 @@ def cmpOfKey (k : String) : Option Cmp :=
   [Cmp.eq, .ne, .lt, .le, .gt, .ge, .is, .isNot, .like, .notLike].find? fun c => cmpKey c == k
 
 def arKey : Ar → String
-  | .add => "+" | .sub => "-" | .mul => "*" | .mod => "%"
+  | .add => "+" | .sub => "-" | .mul => "*" | .mod => "%" | .div => "/"
 
-def arOfKey (k : String) : Option Ar := [Ar.add, .sub, .mul, .mod].find? fun c => arKey c == k
+def arOfKey (k : String) : Option Ar := [Ar.add, .sub, .mul, .mod, .div].find? fun c => arKey c == k
 
 def saPolicy : SaParen.Policy where
   rkBin o := ((SaPrec.bins.find? fun r => r.1 == o).map (·.2.2.2.1)).getD 0
@@ -37,6 +37,10 @@ def saPolicy : SaParen.Policy where
   rkBtw := SaPrec.rkBtw
   natural o := ((SaPrec.bins.find? fun r => r.1 == o).map (·.2.2.2.2.1)).getD false
   preAll o := ((SaPrec.pres.find? fun r => r.1 == o).map (·.2.2.2.2)).getD false
+  extra o := match ((SaPrec.bins.find? fun r => r.1 == o).map (·.2.2.2.2.2.2)).getD (0, 0) with
+    | (0, _) => none
+    | (k, 0) => some (k, none)
+    | (k, x) => some (k, some x)
 
 def sqliteP : OPM.Table :=
   EngineSqlite.table (SaPrec.bins.map fun r => (r.1, r.2.2.1)) (SaPrec.pres.map fun r => (r.1, r.2.2.1))
@@ -182,6 +186,26 @@ partial def readE : List String → Option (Render.Expr × List String)
     some (.btw false x lo hi, rest)
   | _ => none
 
+/-- operator trees over *all* keys of the method table (incl. `||`), prefix form:
+`a <n>` | `b <key_> L R` | `p <key> E` | `w X Y Z` -/
+partial def readG : List String → Option (OPM.Expr × List String)
+  | "a" :: n :: rest => n.toNat?.map fun n => (.atom n, rest)
+  | "b" :: k :: rest => do
+    let (l, rest) ← readG rest
+    let (r, rest) ← readG rest
+    some (.bin (binId (k.replace "_" " ")) l r, rest)
+  | "p" :: k :: rest => do
+    let (e, rest) ← readG rest
+    some (.pre (if k == "NOT" then 201 else 202) e, rest)
+  | "w" :: rest => do
+    let (x, rest) ← readG rest
+    let (y, rest) ← readG rest
+    let (z, rest) ← readG rest
+    some (.btw x y z, rest)
+  | _ => none
+
+def opName (o : Nat) : String := if o ≥ 200 then preText o else binText o
+
 def unus (s : String) : String := if s == "-" then "" else s.replace "_" " "
 
 def keySuffix (k : OrderKey) : String :=
@@ -199,6 +223,14 @@ def handle (line : String) : String :=
       let p := SaParen.saParens saPolicy o
       let fl := deepFlags n
       pr n p ++ s!" | ok={b01 (okE e)} mod={b01 (modelledE e)} saok={b01 fl.1} regroup={b01 fl.2}"
+    | _ => "bad-line"
+  | "G" :: rest =>
+    match readG rest with
+    | some (o, []) =>
+      let p := SaParen.saParens saPolicy o
+      let re := OPM.parse sqliteP (OPM.print sqliteP p) [] none == some p
+      SaParen.render opName "BETWEEN" "AND" p ++
+        s!" | saok={b01 (SaParen.saOk saPolicy o)} regroup={b01 re}"
     | _ => "bad-line"
   | "J" :: on :: jt =>
     let jt := " ".intercalate jt
